@@ -29,6 +29,9 @@ pub mod test_fixture;
 
 mod app;
 mod seq_join;
+#[cfg(feature = "ipa-verif")]
+#[allow(clippy::all, clippy::pedantic)]
+pub(crate) mod verif_obs;
 mod serde;
 pub mod sharding;
 pub mod utils;
